@@ -30,6 +30,25 @@ def generate(rng, tier):
                 for sub in itertools.combinations(range(n), r):
                     if all(tags[i] in SUB_POOL for i in sub):
                         yield {"fam": "infer", "tags": list(tags), "variant": 0, "sub": list(sub)}
+    # "arbitrary other classes": numbers outside the ladder (Decimal, Fraction, a numbers.Number, a class with __index__/__float__),
+    # temporal look-alikes (time, timedelta), bytes/container look-alikes (bytearray, frozenset, range) — each is just another
+    # unrelated class for the rule; on the wire the distinct exotic classes of a case are numbered as the user classes 13, 14, 15
+    ladder = [0, 1, 2, 3, 4, 5, 7, 8]
+    alphabet = ladder + [("x", i) for i in range(len(EXOTIC))]
+    for n in range(1, 4):
+        for seq in itertools.product(alphabet, repeat=n):
+            if any(isinstance(c, tuple) for c in seq):
+                yield {"fam": "infer", "tags": [c if not isinstance(c, tuple) else 13 for c in seq], "variant": 0,
+                       "exo": {str(i): c[1] for i, c in enumerate(seq) if isinstance(c, tuple)}}
+    for x in range(len(EXOTIC)):
+        for nullable in (False, True):
+            for t in range(13):
+                yield {"fam": "promote", "kind": 13, "nullable": nullable, "tag": t, "exokind": x}
+            yield {"fam": "promote", "kind": 13, "nullable": nullable, "tag": 13, "exokind": x, "exoval": x}
+            yield {"fam": "promote", "kind": 13, "nullable": nullable, "tag": 14, "exokind": x, "exoval": (x + 1) % len(EXOTIC)}
+        for k in range(1, 13):
+            for nullable in (False, True):
+                yield {"fam": "promote", "kind": k, "nullable": nullable, "tag": 13, "exoval": x}
     inv = {v: k for k, v in kind_codes().items()}
     for k in sorted(inv):
         for nullable in (False, True):
@@ -112,7 +131,55 @@ SUB_POOL = {2: _E.A, 3: _F(2.5), 4: _C(1, 1), 5: _S("sub"), 6: _B(b"sub"), 7: _D
             10: _M(a=1), 11: _P(1, 2)}
 
 
+import decimal as _dec, fractions as _fr, numbers as _nums
+
+
+class _Num(_nums.Number):
+    """registered as a number, nothing else"""
+    def __hash__(self):
+        return 1
+
+
+class _Idx:
+    def __index__(self):
+        return 3
+
+    def __int__(self):
+        return 3
+
+    def __float__(self):
+        return 3.0
+
+
+EXOTIC = [_dec.Decimal("1.5"), _fr.Fraction(1, 3), _Num(), _Idx(), _dt.time(1, 2), _dt.timedelta(days=1), bytearray(b"a"),
+          frozenset({1}), range(3)]
+
+
+def _exo_codes(spec):
+    """exotic class -> wire code 13, 14, 15 in order of first appearance in the case"""
+    out = {}
+    for i in sorted(spec.get("exo", {}), key=int):
+        c = type(EXOTIC[spec["exo"][i]])
+        out.setdefault(c, 13 + len(out))
+    if "exokind" in spec:
+        out.setdefault(type(EXOTIC[spec["exokind"]]), 13 + len(out))
+    if "exoval" in spec:
+        out.setdefault(type(EXOTIC[spec["exoval"]]), 13 + len(out))
+    return out
+
+
+def _dwire(d, cmap):
+    if d is not None and d.kind in cmap:
+        return [cmap[d.kind], bool(d.nullable)]
+    return dtype_wire(d)
+
+
 def _values(spec):
+    if spec.get("exo"):
+        vals = [value_of(c, 0) for c in spec["tags"]]
+        for i, x in spec["exo"].items():
+            vals[int(i)] = EXOTIC[x]
+        return vals
     if spec.get("pool") == "equal":
         return [EQUAL_POOL[c] for c in spec["tags"]]
     vals = [value_of(c, spec.get("variant", 0) + i) for i, c in enumerate(spec["tags"])]
@@ -129,7 +196,9 @@ def execute(spec):
     if fam == "infer":
         vals = _values(spec)
         d = infer_dtype(vals)
-        w = {"fam": "infer", "case": {"tags": spec["tags"]}, "impl": dtype_wire(d)}
+        cmap = _exo_codes(spec)
+        tags = [cmap[type(vals[i])] if str(i) in spec.get("exo", {}) else c for i, c in enumerate(spec["tags"])]
+        w = {"fam": "infer", "case": {"tags": tags}, "impl": _dwire(d, cmap)}
         v = Vector(vals)
         if hasattr(v, "schema") and not (vals and all(isinstance(x, Vector) for x in vals)):
             s = v.schema()
@@ -167,9 +236,13 @@ def execute(spec):
         return w
     if fam == "promote":
         inv = {v: k for k, v in kind_codes().items()}
-        d = DataType(inv[spec["kind"]], spec["nullable"])
-        r = d.promote_with(SUB_POOL[spec["tag"]] if spec.get("sub") else value_of(spec["tag"]))
-        return {"fam": "promote", "case": {"dtype": [spec["kind"], spec["nullable"]], "tag": spec["tag"]}, "impl": dtype_wire(r)}
+        cmap = _exo_codes(spec)
+        kind = type(EXOTIC[spec["exokind"]]) if "exokind" in spec else inv[spec["kind"]]
+        d = DataType(kind, spec["nullable"])
+        val = EXOTIC[spec["exoval"]] if "exoval" in spec else SUB_POOL[spec["tag"]] if spec.get("sub") else value_of(spec["tag"])
+        r = d.promote_with(val)
+        return {"fam": "promote", "case": {"dtype": [cmap.get(kind, spec["kind"]), spec["nullable"]], "tag": cmap.get(type(val), spec["tag"])},
+                "impl": _dwire(r, cmap)}
     if fam == "result":
         return _result(spec)
     raise ValueError(fam)
@@ -293,7 +366,12 @@ def shrink(spec):
     if spec["fam"] == "infer":
         t = spec["tags"]
         for i in range(len(t)):
-            yield dict(spec, tags=t[:i] + t[i + 1:])
+            out = dict(spec, tags=t[:i] + t[i + 1:])
+            if spec.get("exo"):
+                out["exo"] = {str(int(j) - (int(j) > i)): x for j, x in spec["exo"].items() if int(j) != i}
+            if spec.get("sub"):
+                out["sub"] = [j - (j > i) for j in spec["sub"] if j != i]
+            yield out
         if spec.get("variant"):
             yield dict(spec, variant=0)
 
